@@ -66,6 +66,7 @@ class Cfg:
     keys_quick: int = 2
     keys_thorough: int = 8
     depth: int = 64
+    depth_thorough: Optional[int] = None  # deeper bound of the thorough tier (default: the same depth)
     max_states_quick: int = 30_000
     max_states_thorough: int = 300_000
     time_limit: Optional[int] = None  # the configured time limit if the env takes one (C11)
@@ -91,6 +92,9 @@ class Cfg:
             return ks
         return list(range(self.keys_quick if tier == "quick" else self.keys_thorough))
 
+    def depth_for(self, tier: str) -> int:
+        return self.depth_thorough if (tier == "thorough" and self.depth_thorough) else self.depth
+
     def max_states(self, tier: str) -> int:
         return self.max_states_quick if tier == "quick" else self.max_states_thorough
 
@@ -104,10 +108,10 @@ RW_AWK = "shelf_rows=1, shelf_columns=3, column_height=2, num_agents=3, sensor_r
 
 CATALOG: List[Cfg] = [
     # ---------------- Game2048
-    _c("game2048-2x2", "game_2048", "Game2048(2)", depth=8, keys_quick=2, keys_thorough=6),
-    _c("game2048-3x3", "game_2048", "Game2048(3)", depth=5, keys_quick=1, keys_thorough=3, kind="awkward"),
-    _c("game2048-5x5", "game_2048", "Game2048(5)", kind="awkward", depth=3, keys_quick=1, keys_thorough=2, quick=False),
-    _c("game2048-default", "game_2048", "Game2048()", kind="default", depth=4, keys_quick=1, keys_thorough=2),
+    _c("game2048-2x2", "game_2048", "Game2048(2)", depth=8, depth_thorough=10, keys_quick=2, keys_thorough=6),
+    _c("game2048-3x3", "game_2048", "Game2048(3)", depth=5, depth_thorough=7, keys_quick=1, keys_thorough=3, kind="awkward"),
+    _c("game2048-5x5", "game_2048", "Game2048(5)", kind="awkward", depth=3, depth_thorough=6, keys_quick=1, keys_thorough=2, quick=False),
+    _c("game2048-default", "game_2048", "Game2048()", kind="default", depth=4, depth_thorough=7, keys_quick=1, keys_thorough=2),
     # ---------------- GraphColoring
     _c("graphcol-4", "graph_coloring", "GraphColoring(G.graph_coloring.RandomGenerator(4, 0.5))",
        keys_quick=4, keys_thorough=16, horizon="4"),
@@ -121,7 +125,7 @@ CATALOG: List[Cfg] = [
        kind="awkward", keys_quick=2, keys_thorough=4, horizon="4"),
     _c("graphcol-3-dense", "graph_coloring", "GraphColoring(G.graph_coloring.RandomGenerator(3, 0.99))",
        kind="awkward", keys_quick=2, keys_thorough=4, horizon="3"),
-    _c("graphcol-default", "graph_coloring", "GraphColoring()", kind="default", depth=3,
+    _c("graphcol-default", "graph_coloring", "GraphColoring()", kind="default", depth=3, depth_thorough=4,
        keys_quick=1, keys_thorough=2, horizon="20"),
     # ---------------- Minesweeper
     _c("mines-3x3-2", "minesweeper", "Minesweeper(G.minesweeper.UniformSamplingGenerator(3, 3, 2))",
@@ -150,7 +154,7 @@ CATALOG: List[Cfg] = [
        kind="awkward", keys_quick=1, keys_thorough=2, time_limit=1),
     _c("rubik-4-T2", "rubiks_cube", "RubiksCube(G.rubiks_cube.ScramblingGenerator(4, 3), time_limit=2)",
        kind="awkward", keys_quick=1, keys_thorough=2, time_limit=2, quick=False),
-    _c("rubik-default", "rubiks_cube", "RubiksCube()", kind="default", depth=2, keys_quick=1,
+    _c("rubik-default", "rubiks_cube", "RubiksCube()", kind="default", depth=2, depth_thorough=3, keys_quick=1,
        keys_thorough=2, time_limit=200),
     # ---------------- SlidingTilePuzzle
     _c("slide-2-T6", "sliding_tile_puzzle",
@@ -173,7 +177,7 @@ CATALOG: List[Cfg] = [
     _c("slide-3-T1", "sliding_tile_puzzle",
        "SlidingTilePuzzle(G.sliding_tile_puzzle.RandomWalkGenerator(3, 5), time_limit=1)", kind="awkward",
        keys_quick=2, keys_thorough=4, time_limit=1),
-    _c("slide-default", "sliding_tile_puzzle", "SlidingTilePuzzle()", kind="default", depth=4,
+    _c("slide-default", "sliding_tile_puzzle", "SlidingTilePuzzle()", kind="default", depth=4, depth_thorough=9,
        keys_quick=1, keys_thorough=2, time_limit=500),
     # ---------------- Sudoku
     _c("sudoku-near", "sudoku", "Sudoku(INJ.sudoku_near_complete(4))", keys_quick=2, keys_thorough=6,
@@ -237,7 +241,7 @@ CATALOG: List[Cfg] = [
        keys_quick=2, keys_thorough=4, horizon="3"),
     _c("knapsack-3-roomy-sparse", "knapsack", "Knapsack(G.knapsack.RandomGenerator(3, 5.0), "
        "reward_fn=R.knapsack.SparseReward())", kind="awkward", keys_quick=2, keys_thorough=4, horizon="3"),
-    _c("knapsack-default", "knapsack", "Knapsack()", kind="default", depth=2, keys_quick=1,
+    _c("knapsack-default", "knapsack", "Knapsack()", kind="default", depth=2, depth_thorough=3, keys_quick=1,
        keys_thorough=2, horizon="50"),
     # ---------------- Tetris
     _c("tetris-4x4-T4", "tetris", "Tetris(4, 4, 4)", keys_quick=2, keys_thorough=6, time_limit=4),
@@ -249,7 +253,7 @@ CATALOG: List[Cfg] = [
        time_limit=1),
     _c("tetris-8x4-T3", "tetris", "Tetris(8, 4, 3)", kind="awkward", keys_quick=1, keys_thorough=2, time_limit=3,
        quick=False),
-    _c("tetris-default", "tetris", "Tetris()", kind="default", depth=2, keys_quick=1, keys_thorough=2,
+    _c("tetris-default", "tetris", "Tetris()", kind="default", depth=2, depth_thorough=3, keys_quick=1, keys_thorough=2,
        time_limit=400),
     # ---------------- Cleaner
     _c("cleaner-3x4x2-T5", "cleaner", "Cleaner(G.cleaner.RandomGenerator(3, 4, 2), time_limit=5)",
@@ -266,7 +270,7 @@ CATALOG: List[Cfg] = [
        keys_quick=2, keys_thorough=4, time_limit=8, depth=9),
     _c("cleaner-4x3x2-pen025-T4", "cleaner", "Cleaner(G.cleaner.RandomGenerator(4, 3, 2), time_limit=4, "
        "penalty_per_timestep=0.25)", kind="awkward", keys_quick=1, keys_thorough=3, time_limit=4),
-    _c("cleaner-default", "cleaner", "Cleaner()", kind="default", depth=2, keys_quick=1,
+    _c("cleaner-default", "cleaner", "Cleaner()", kind="default", depth=2, depth_thorough=3, keys_quick=1,
        keys_thorough=2, time_limit=100),
     # ---------------- Connector
     _c("connector-4x2-T5", "connector", "Connector(G.connector.UniformRandomGenerator(4, 2), time_limit=5)",
@@ -292,7 +296,7 @@ CATALOG: List[Cfg] = [
     # capacity covers the total demand: a single trip serves everybody, the depot is only entered at the end
     _c("cvrp-3-roomy", "cvrp", "CVRP(G.cvrp.UniformGenerator(3, 30, 5))", kind="awkward", keys_quick=2, keys_thorough=4,
        horizon="6"),
-    _c("cvrp-default", "cvrp", "CVRP()", kind="default", depth=2, keys_quick=1, keys_thorough=2,
+    _c("cvrp-default", "cvrp", "CVRP()", kind="default", depth=2, depth_thorough=3, keys_quick=1, keys_thorough=2,
        horizon="40"),
     # ---------------- LBF
     _c("lbf-5x2x1-T3", "lbf", "LevelBasedForaging(G.lbf.RandomGenerator(5, 2, 1, fov=5), time_limit=3)",
@@ -317,7 +321,7 @@ CATALOG: List[Cfg] = [
     # a single agent: every per-agent axis has length 1
     _c("lbf-5x1x1-T3", "lbf", "LevelBasedForaging(G.lbf.RandomGenerator(5, 1, 1, fov=2, force_coop=False), time_limit=3)",
        kind="awkward", keys_quick=2, keys_thorough=4, time_limit=3),
-    _c("lbf-default", "lbf", "LevelBasedForaging()", kind="default", depth=1, keys_quick=1,
+    _c("lbf-default", "lbf", "LevelBasedForaging()", kind="default", depth=1, depth_thorough=2, keys_quick=1,
        keys_thorough=2, time_limit=100),
     # ---------------- Maze
     _c("maze-5x5-T6", "maze", "Maze(G.maze.RandomGenerator(5, 5), time_limit=6)", keys_quick=3,
@@ -328,7 +332,7 @@ CATALOG: List[Cfg] = [
        keys_thorough=6, time_limit=12, depth=12),
     _c("maze-toy-T3", "maze", "Maze(G.maze.ToyGenerator(), time_limit=3)", kind="awkward", keys_quick=1,
        keys_thorough=2, time_limit=3),
-    _c("maze-default", "maze", "Maze()", kind="default", depth=3, keys_quick=1, keys_thorough=2,
+    _c("maze-default", "maze", "Maze()", kind="default", depth=3, depth_thorough=10, keys_quick=1, keys_thorough=2,
        time_limit=100),
     # ---------------- MMST
     _c("mmst-12-T3", "mmst", "MMST(G.mmst.SplitRandomGenerator(12, 18, 4, 2, 3, 3), time_limit=3)",
@@ -361,7 +365,7 @@ CATALOG: List[Cfg] = [
     _c("pacman-9x11-T12", "pac_man", "PacMan(generator=M.pac_man.generator.AsciiGenerator(INJ.PACMAN_SMALL), "
        "time_limit=12)", kind="awkward", depth=12, keys_quick=1, keys_thorough=2, time_limit=12, quick=False,
        max_states_thorough=60_000),
-    _c("pacman-default", "pac_man", "PacMan()", kind="default", depth=5, keys_quick=1, keys_thorough=3,
+    _c("pacman-default", "pac_man", "PacMan()", kind="default", depth=5, depth_thorough=7, keys_quick=1, keys_thorough=3,
        time_limit=1000),
     _c("pacman-T3", "pac_man", "PacMan(time_limit=3)", kind="awkward", depth=5, keys_quick=1,
        keys_thorough=2, time_limit=3),
@@ -389,7 +393,7 @@ CATALOG: List[Cfg] = [
     _c("snake-1x4-T6", "snake", "Snake(1, 4, 6)", kind="awkward", keys_quick=2, keys_thorough=4, time_limit=6),
     _c("snake-2x3-T14", "snake", "Snake(2, 3, 14)", kind="awkward", keys_quick=1, keys_thorough=3, time_limit=14,
        ref_states_quick=4500, quick=False),
-    _c("snake-default", "snake", "Snake()", kind="default", depth=4, keys_quick=1, keys_thorough=2,
+    _c("snake-default", "snake", "Snake()", kind="default", depth=4, depth_thorough=9, keys_quick=1, keys_thorough=2,
        time_limit=4000),
     # ---------------- Sokoban
     _c("sokoban-simple-T6", "sokoban", "Sokoban(G.sokoban.SimpleSolveGenerator(), time_limit=6)",
@@ -406,7 +410,7 @@ CATALOG: List[Cfg] = [
     _c("sokoban-toy-sparse-T2", "sokoban", "Sokoban(G.sokoban.ToyGenerator(), "
        "reward_fn=R.sokoban.SparseReward(), time_limit=2)", kind="awkward", keys_quick=1,
        keys_thorough=2, time_limit=2),
-    _c("sokoban-toy-default", "sokoban", "Sokoban(G.sokoban.ToyGenerator())", kind="default", depth=3,
+    _c("sokoban-toy-default", "sokoban", "Sokoban(G.sokoban.ToyGenerator())", kind="default", depth=3, depth_thorough=8,
        keys_quick=1, keys_thorough=2, time_limit=120),
     # ---------------- TSP
     _c("tsp-5", "tsp", "TSP(G.tsp.UniformGenerator(5))", keys_quick=2, keys_thorough=8, horizon="5"),
@@ -416,7 +420,7 @@ CATALOG: List[Cfg] = [
        horizon="2"),
     _c("tsp-1", "tsp", "TSP(G.tsp.UniformGenerator(1))", kind="awkward", keys_quick=1, keys_thorough=2,
        horizon="1"),
-    _c("tsp-default", "tsp", "TSP()", kind="default", depth=2, keys_quick=1, keys_thorough=2,
+    _c("tsp-default", "tsp", "TSP()", kind="default", depth=2, depth_thorough=3, keys_quick=1, keys_thorough=2,
        horizon="20"),
 ]
 
